@@ -90,6 +90,14 @@ theorem crash_no_failed (c : Compiler) (fs : List (List Char)) (out : List Char)
     · simp [h1, h2]
     · simp [h1, h2] at h
 
+/-- groovyc's extra rule: when the output mentions `java.lang.StackOverflowError` (and carries no
+`at org.codehaus.groovy` frame) it is a crash exactly when no error block was recognised -/
+theorem groovy_stackoverflow_rule (fs : List (List Char)) (out : List Char)
+    (hc : crashSearch .groovyc out = false) (hso : stackOverflowSearch out = true) :
+    (analyze .groovyc fs out).crash = (findAll matchGroovy (applyFilters fs out)).isEmpty := by
+  simp only [analyze, hc, hso, matcher]
+  cases (findAll matchGroovy (applyFilters fs out)).isEmpty <;> simp
+
 /-! ## batch independence -/
 
 /-- the messages of a file in the concatenation of two batch outputs are its messages in the
